@@ -26,10 +26,14 @@ pub fn boundaries_within(a: &Operand, b: &Operand, d: f64) -> bool {
 }
 
 /// the three operations on (A,B), and add / intersect on (B,A), probed for membership. `class` names the input class in the keys
-fn check_pair(stats: &mut Stats, rng: &mut Rng, a: &Vec<P>, b: &Vec<P>, class: &str, n_uniform: usize, n_near: usize) {
+fn check_pair(stats: &mut Stats, rng: &mut Rng, a: &Vec<P>, b: &Vec<P>, class: &str, n_uniform: usize, n_near: usize) { check_pair_x(stats, rng, a, b, class, n_uniform, n_near, true) }
+
+/// `contact_suffix`: append the contact class computed from the input (`.vertex_near_boundary`, ...) to the key; structured classes that
+/// construct their contact on purpose and are right on the unchanged code are keyed by their own name only
+fn check_pair_x(stats: &mut Stats, rng: &mut Rng, a: &Vec<P>, b: &Vec<P>, class: &str, n_uniform: usize, n_near: usize, contact_suffix: bool) {
     let (oa, ob) = (Operand::new(a), Operand::new(b));
     let pr = probes(rng, &[&oa, &ob], n_uniform, n_near);
-    let class = &format!("{}{}", class, near_contact_suffix(&[a, b]));
+    let class = &format!("{}{}", class, if contact_suffix { near_contact_suffix(&[a, b]) } else { "" });
     if class.ends_with(".vertex_near_boundary") { stats.count("pair.vertex_near_boundary"); }
     let detail = || format!("A={:?} B={:?}", a, b);
     let (mut n_in_a, mut n_in_b, mut n_in_both) = (0, 0, 0);
@@ -144,6 +148,31 @@ pub fn search(seed: u64, n: u64) {
         stats.count("pair.shallow_ray_crossing");
         stats.case(&format!("shallow_ray_crossing theta={} A={:?} B={:?}", theta, a, b), true);
         check_pair(&mut stats, &mut rng_sh, &a, &b, "shallow_ray_crossing", 150, 150);
+    }
+    // an edge of the second operand crossing an edge of the first one a few thousandths SHORT OF THAT EDGE'S END VERTEX (and not touching the
+    // following edge): the crossing is real, 0.002 .. 0.008 from the vertex (own stream; a rectangle and a triangle entering through its top
+    // edge next to the corner, all windings and start vertices; keyed on its own - the unchanged code is right on these)
+    let mut rng_c = Rng(seed ^ 0xC02E2C01);
+    for k in 0..(4 + n / 25) {
+        let (x0, y0, w, h) = (rng_c.r(10.0, 30.0), rng_c.r(10.0, 30.0), rng_c.r(20.0, 40.0), rng_c.r(20.0, 40.0));
+        let d = rng_c.r(0.002, 0.008);
+        let mut ra = vec![Coord2(x0, y0), Coord2(x0 + w, y0), Coord2(x0 + w, y0 + h), Coord2(x0, y0 + h)];
+        ra.rotate_left(rng_c.i(4) as usize);
+        if rng_c.b() { ra.reverse(); }
+        // the triangle's apex is inside the rectangle; one of its sides leaves through the top edge at (x0 + w - d, y0 + h), the other far away
+        let enter = Coord2(x0 + w - d, y0 + h);
+        let apex = Coord2(x0 + w * rng_c.r(0.4, 0.7), y0 + h * rng_c.r(0.3, 0.7));
+        let dir = enter - apex;
+        let out1 = apex + dir * rng_c.r(1.5, 2.2);
+        let out2 = Coord2(x0 + w * rng_c.r(0.05, 0.3), y0 + h + rng_c.r(8.0, 20.0));
+        let mut tb = vec![apex, out1, out2];
+        tb.rotate_left(rng_c.i(3) as usize);
+        if rng_c.b() { tb.reverse(); }
+        let (a, b) = (vec![polygon(&ra)], vec![polygon(&tb)]);
+        let (a, b) = if k % 2 == 0 { (a, b) } else { (b, a) };
+        stats.count("pair.crossing_just_before_vertex");
+        stats.case(&format!("crossing_just_before_vertex d={} A={:?} B={:?}", d, a, b), true);
+        check_pair_x(&mut stats, &mut rng_c, &a, &b, "crossing_just_before_vertex", 150, 150, false);
     }
     for _ in 0..n {
         let pair = gen_pair(&mut rng);
